@@ -164,3 +164,48 @@ def bfs(
         "max_depth": depth_reached,
         "capped": capped,
     }
+
+
+def bfs_levels(
+    step,
+    alphabet: list,
+    max_depth: int,
+    pmap_fn,
+    max_states: Optional[int] = None,
+):
+    """Level-synchronous explicit-state BFS whose expansions run in parallel.
+
+    step((history, event)) must be a module-level function: it rebuilds the state by
+    replaying history on fresh objects, applies event, and returns
+    (canon_of_new_state, violation_or_None, enabled: bool).  enabled=False means the event
+    is not applicable in that state (no transition).  Results are merged in index order so
+    the search does not depend on scheduling."""
+    seen = {None}
+    frontier: list = [()]
+    transitions = 0
+    violations = []
+    depth = 0
+    capped = False
+    samples = []
+    while frontier and depth < max_depth:
+        tasks = [(h, ev) for h in frontier for ev in alphabet]
+        results = pmap_fn(step, tasks)
+        nxt = []
+        for (h, ev), (canon, viol, enabled) in zip(tasks, results):
+            if not enabled:
+                continue
+            transitions += 1
+            if viol is not None:
+                violations.append(viol)
+            if canon not in seen:
+                seen.add(canon)
+                nxt.append(h + (ev,))
+                if len(samples) < 5:
+                    samples.append(list(h + (ev,)))
+                if max_states is not None and len(seen) >= max_states:
+                    capped = True
+                    break
+        depth += 1
+        frontier = nxt if not capped else []
+    return {"states": len(seen), "transitions": transitions, "violations": violations, "depth": depth,
+            "capped": capped, "samples": samples, "frontier_left": len(frontier) if depth >= max_depth else 0}
